@@ -705,6 +705,9 @@ example : (readLitCore "1, 2".toList).map (fun l => (l.1.shape?, l.1.flat, l.2))
   decide +kernel
 example : (readLitCore "1,".toList).map (fun l => (l.1.shape?, l.1.flat, l.2)) = some (some [1], [(1, 0)], false) := by
   decide +kernel
+-- a line break is a blank inside brackets and the end of the expression outside
+example : (readLit "[1,\n2]".toList).map (fun l => (l.shape?, l.flat)) = some (some [2], [(1, 0), (2, 0)]) := by decide +kernel
+example : readLit "1,\n2".toList = none := by decide +kernel
 example : (readLit "(0.5,)".toList).map (fun l => (l.shape?, l.flat)) = some (some [1], [(5, -1)]) := by decide +kernel
 example : (readLit "(0.5)".toList).map (fun l => (l.shape?, l.flat)) = some (some [], [(5, -1)]) := by decide +kernel
 example : readLit "010".toList = none := by decide +kernel
